@@ -1022,6 +1022,11 @@ class Interp:
                 if is_sym(a) or a not in b.present:
                     raise Unsupported("membership test of %r in a ghost dict that does not specify it (line %d)" % (a, node.lineno))
                 r = b.present[a]
+            elif isinstance(b, str):
+                # substring test (NOT membership among the characters)
+                if not isinstance(a, str):
+                    raise Unsupported("`in` with a str on the right and %r on the left (line %d)" % (a, node.lineno))
+                r = a in b
             elif isinstance(b, dict):
                 if is_sym(a):
                     raise Unsupported("symbolic key in dict test")
@@ -1417,7 +1422,22 @@ class _BoundNative:
         if isinstance(o, list) and n == "copy":
             return list(o)
         if isinstance(o, str) and n == "format":
-            if any(is_sym(a) or isinstance(a, SRec) for a in args):
+            if any(is_sym(a) or isinstance(a, (SRec, PStr)) for a in args):
+                if getattr(interp.ctx.engine, "precise_format", False) and not kwargs:
+                    # opt-in (contracts about rendered text): positional fields without conversion or format spec become
+                    # pieces of a piecewise string
+                    import string
+                    pieces, auto = [], 0
+                    for lit, field, spec, conv in string.Formatter().parse(o):
+                        pieces.append(lit)
+                        if field is None:
+                            continue
+                        if spec or conv or not (field == "" or field.isdigit()):
+                            raise Unsupported("str.format field {%s!%s:%s} with symbolic arguments" % (field, conv, spec))
+                        idx = auto if field == "" else int(field)
+                        auto += 1
+                        pieces.append(interp.to_str(args[idx], node))
+                    return PStr.make(pieces)
                 return "<formatted>"
             return o.format(*args, **kwargs)
         if isinstance(o, str) and n in ("join",):
